@@ -131,6 +131,13 @@ def draw_text(rng):
         text = ''.join(parts)
     if rng.random() < 0.04:
         text = rng.choice(['', '\n', ' ', ';', '-- only a comment'])
+    if rng.random() < 0.05:
+        # texts that *begin* like an encoding signature in some other
+        # encoding: U+FEFF itself, or the Latin-1 characters whose bytes
+        # spell a UTF-16/UTF-8 BOM, a NUL, a UTF-7 signature
+        text = rng.choice(['\ufeff', '\ufeff', '\u00ff\u00fe', '\u00fe\u00ff',
+                           '\u00ef\u00bb\u00bf', '\x00', '+/v8 ',
+                           '\u00ff\u00fe\x00\x00']) + text
     if rng.random() < 0.3 and text.endswith('\n'):
         text = text.rstrip('\n')       # missing trailing newline
     return text.replace('\r', '')
@@ -420,6 +427,13 @@ def _form_desc(item):
     return 'text stream over a simulated device, %s' % item['enc']
 
 
+def _pipe_codec(enc):
+    name = codecs.lookup(enc).name
+    if name in ('utf-16', 'utf-32'):
+        return name + ('-le' if sys.byteorder == 'little' else '-be')
+    return enc
+
+
 def run_cli_item(item, text, ref, stat, viols, ii, want_bytes=False):
     from sqlparse import cli
     chan = iofake.Chan()
@@ -543,6 +557,11 @@ def run_cli_item(item, text, ref, stat, viols, ii, want_bytes=False):
         # result", so either decoding may match
         encs = [out_enc] if item['out'] == 'file' or out_enc == enc \
             else [out_enc, enc]
+        if item['out'] != 'file':
+            # a pipe is not seekable: TextIOWrapper writes UTF-16/32 in
+            # native byte order *without* a BOM there, so a leading U+FEFF
+            # in the data is a character, not a signature
+            encs = [_pipe_codec(e_) for e_ in encs]
         got_text = None
         derr = None
         for e_ in encs:
